@@ -679,6 +679,11 @@ func runC16(c *Ctx) {
 		lifeMetrics(c, i%4 != 0)
 		lifeMetrics(c, true)
 	}
+	if c.Tier == "thorough" {
+		lifeMetricsRace(c, 12000)
+	} else {
+		lifeMetricsRace(c, 2000)
+	}
 	lifeStoreStop(c)
 	lifeStoreStop(c)
 	lifeRedisStoreStop(c)
@@ -798,6 +803,54 @@ func lifeRedisStoreStop(c *Ctx) {
 		stopped, _ := waitStop(ps.Stop(), 3*time.Second)
 		left := goroutinesLeft("chihaya/storage/redis.", g0)
 		return fmt.Sprintf("stopped=%s goroutines_left=%d", b01(stopped), left)
+	}()
+	c.Emit(op, obs)
+}
+
+// life.metrics_race: Stop at every distance from NewServer between 0 and a few hundred microseconds, many times: the
+// window in which the serving goroutine has passed ListenAndServe's shutdown check but has not bound the address yet is
+// narrow; whenever Stop completes the address must be free and the goroutine gone.
+func lifeMetricsRace(c *Ctx, n int) {
+	op := fmt.Sprintf("life.metrics_race n=%d", n)
+	c.Begin(op)
+	obs := func() (o string) {
+		defer func() {
+			if p := recover(); p != nil {
+				o = "PANIC " + strings.Fields(fmt.Sprint(p))[0]
+			}
+		}()
+		const workers = 8
+		g0 := goroutinesOf("chihaya/pkg/metrics.")
+		var free, pending int32
+		var wg sync.WaitGroup
+		for w := 0; w < workers; w++ {
+			wg.Add(1)
+			go func(w int) {
+				defer wg.Done()
+				for i := w; i < n; i += workers {
+					l0, err := net.Listen("tcp", "127.0.0.1:0")
+					if err != nil {
+						continue
+					}
+					addr := l0.Addr().String()
+					l0.Close()
+					srv := metrics.NewServer(addr)
+					for spin := (i % 50) * 200; spin > 0; spin-- { // 0 … ~100 µs
+						runtime.Gosched()
+					}
+					if ok, _ := waitStop(srv.Stop(), 5*time.Second); !ok {
+						atomic.AddInt32(&pending, 1)
+						continue
+					}
+					if l, err := net.Listen("tcp", addr); err == nil {
+						l.Close()
+						atomic.AddInt32(&free, 1)
+					}
+				}
+			}(w)
+		}
+		wg.Wait()
+		return fmt.Sprintf("free_at_stop=%d/%d stop_pending=%d goroutines_left=%d", free, n, pending, goroutinesLeft("chihaya/pkg/metrics.", g0))
 	}()
 	c.Emit(op, obs)
 }
